@@ -15,6 +15,9 @@ def simple(run, shards_thorough=16, variant="default", shards_quick=1, fuzz=None
         if tier == "thorough" and fuzz:
             st["barrier"] = True
             out.append(dict(run="^$", variant=variant, fuzz=fuzz, fuzztime=240, journal=kw.get("journal", False)))
+        if tier == "quick" and kw.get("noasm_quick"):
+            # the portable decoder in the quick tier as well: the rapid campaign once more, built with -tags noasm (runs beside the other steps)
+            out.append(dict(run=kw["noasm_quick"], variant="noasm", shards=1))
         if tier == "thorough" and kw.get("also386"):
             # the same tests built for GOARCH=386 (32-bit int and uint, portable code paths), at the quick tier's case counts
             v386 = "bubble386" if variant == "bubble" else "386"
@@ -27,7 +30,7 @@ def simple(run, shards_thorough=16, variant="default", shards_quick=1, fuzz=None
 
 
 PROPS = {
-    "C01": dict(level="exploration", steps=simple("^TestC01", shards_quick=2, fuzz="FuzzC10", also386=True), assumptions=TRUST),
+    "C01": dict(level="exploration", steps=simple("^TestC01", shards_quick=2, fuzz="FuzzC10", also386=True, noasm_quick="^TestC01(Pinned)?$"), assumptions=TRUST),
     "C13": dict(level="exploration", steps=simple("^TestC13", shards_thorough=4, also386=True), assumptions=TRUST),
 }
 PROPS["C02"] = dict(level="exploration", steps=simple("^TestC02", also386=True), assumptions=TRUST)
@@ -74,7 +77,7 @@ def c08_steps(tier):
 PROPS["C08"] = dict(level="exploration", steps=c08_steps, default_variant="bubble", assumptions=TRUST + [
     "testing/synctest (Go 1.26.8) detects 'all goroutines durably blocked' for channel operations; schedules are sampled (hook-site delays order the goroutines, the Go scheduler chooses in between)",
     "the Go race detector reports a race only when both accesses occur in the explored execution"])
-PROPS["C16"] = dict(level="exploration", steps=simple("^TestC16", also386=True), assumptions=TRUST)
+PROPS["C16"] = dict(level="exploration", steps=simple("^TestC16", also386=True, noasm_quick="^TestC16(Pinned)?$"), assumptions=TRUST)
 
 
 def c14_steps(tier):
